@@ -484,16 +484,28 @@ Proof.
   rewrite H1, H2, skipn_all. destruct (List.length b); cbn [tr_send_all_loop]; unfold ret, with_out; rewrite Hs, Z.add_0_l; reflexivity.
 Qed.
 
+Lemma send_pdu_whole b w : st (sk w) <> c_RTR_SHUTDOWN -> sends w = [] -> 0 < zlen b <= 8192 ->
+  send_pdu b w = Ok 0 (with_out w (TSend b :: out w)).
+Proof.
+  intros Hst Hs Hl. unfold send_pdu. rewrite (bind_eq get_sk _ w (sk w) w eq_refl).
+  destruct (st (sk w) =? c_RTR_SHUTDOWN) eqn:E; [apply Z.eqb_eq in E; contradiction|].
+  rewrite (bind_eq _ _ _ _ _ (tr_send_all_whole b w Hs Hl)). unfold ret.
+  assert (H : zlen b >? 0 = true) by (apply Z.gtb_lt; lia). rewrite H. reflexivity.
+Qed.
+
 Theorem reset_sends_reset_query fuel w : st (sk w) = c_RTR_RESET -> sends w = [] ->
   exists w', fsm_step fuel w = Ok tt w' /\ st (sk w') = c_RTR_SYNC /\
              out w' = TState c_RTR_SYNC :: TSend (reset_query_bytes (sk w)) :: out w.
 Proof.
-  intros Hst Hs. unfold fsm_step. unfold bind at 1, get_sk. cbv zeta. rewrite Hst. const_dec.
-  unfold send_reset_query. unfold bind at 1. unfold bind at 1, get_sk. unfold send_pdu. unfold bind at 1, get_sk.
-  rewrite Hst. const_dec. unfold bind at 1.
-  fold (reset_query_bytes (sk w)).
-  rewrite (tr_send_all_whole (reset_query_bytes (sk w)) w Hs) by (unfold zlen; cbn [reset_query_bytes List.length app enc16 enc32]; lia).
-  unfold ret. cbn [zlen reset_query_bytes List.length app enc16 enc32 Z.of_nat Pos.of_succ_nat Pos.succ Z.gtb Z.compare Z.eqb].
+  intros Hst Hs.
+  assert (Hns : st (sk w) <> c_RTR_SHUTDOWN) by (rewrite Hst; discriminate).
+  assert (Hq : send_reset_query w = Ok 0 (with_out w (TSend (reset_query_bytes (sk w)) :: out w))).
+  { unfold send_reset_query. rewrite (bind_eq get_sk _ w (sk w) w eq_refl).
+    fold (reset_query_bytes (sk w)).
+    rewrite (bind_eq _ _ _ _ _ (send_pdu_whole (reset_query_bytes (sk w)) w Hns Hs ltac:(unfold zlen; cbn [reset_query_bytes List.length app enc16 enc32]; lia))).
+    reflexivity. }
+  unfold fsm_step. rewrite (bind_eq get_sk _ w (sk w) w eq_refl). cbv zeta. rewrite Hst. const_dec.
+  rewrite (bind_eq _ _ _ _ _ Hq). cbn [Z.eqb].
   rewrite change_state_eq'. unfold state_changed. cbn [sk with_out]. rewrite Hst. const_dec.
   eexists. split; [reflexivity|]. cbn [sk st with_sk with_out upd_st out]. auto.
 Qed.
@@ -508,7 +520,8 @@ Theorem stop_purges w :
                Forall (fun t => match t with TPfx _ _ | TKey _ _ => False | _ => True end) pre).
 Proof.
   split; [apply rtr_stop_eq'|]. pose proof (stopped_facts w) as H. cbv zeta in H.
-  destruct H as (A & B & C & D & S & P & Kk & _). repeat split; auto. apply stopped_out.
+  destruct H as (A & B & C & D & S & P & Kk & _).
+  split; [exact A|]. split; [exact B|]. split; [exact C|]. split; [exact D|]. split; [exact S|]. split; [exact P|]. split; [exact Kk|]. apply stopped_out.
 Qed.
 
 (* ---------- a failed synchronisation keeps the timestamp (repair d3720d6) ---------- *)
@@ -523,3 +536,36 @@ Proof.
   - destruct H as (HI' & _ & [(-> & _)|(_ & HL)]); [intros Hr; contradiction|auto].
   - destruct H as [HI' HL]. auto.
 Qed.
+
+(* ---------- Example: a reload interrupted half-way still expires ----------
+   sync at t=1000 (one prefix, serial 5); the refresh timer fires at 4600; the cache answers the Serial Query
+   with Cache Reset; the reload (Cache Response, one other prefix) is cut by a transport error; the cache
+   stays unreachable; at the first connection attempt after 1000 + 7200 the old record is purged. *)
+Definition ex_CR : list byte := [1;3;0;42;0;0;0;8].
+Definition ex_PA : list byte := [1;4;0;0;0;0;0;20; 1;24;24;0; 10;0;0;0; 0;0;253;232].
+Definition ex_PB : list byte := [1;4;0;0;0;0;0;20; 1;16;16;0; 10;1;0;0; 0;0;253;233].
+Definition ex_EOD : list byte := [1;7;0;42;0;0;0;24; 0;0;0;5; 0;0;14;16; 0;0;2;88; 0;0;28;32].
+Definition ex_CRST : list byte := [1;8;0;0;0;0;0;8].
+Definition ex_evs : list ev :=
+  [EvData (ex_CR ++ ex_PA ++ ex_EOD); EvWait 3601; EvData ex_CRST; EvData (ex_CR ++ ex_PB); EvErr 1; EvWait 100000].
+Definition ex_w0 : world :=
+  start_world 3600 7200 600 0 [] [] ex_evs [true; true; false; false; false; false; false; true] [] [].
+
+Example ex_w0_Inv : Inv ex_w0 /\ live ex_w0.
+Proof.
+  split; [|reflexivity]. apply Inv_start; try (constructor; fail); try reflexivity; [lia|].
+  unfold ex_evs, ex_CR, ex_PA, ex_PB, ex_EOD, ex_CRST. cbn [app].
+  repeat first [apply Forall_nil | apply Forall_cons; [cbn [ev_ok]|]].
+  all: try exact I; try lia; try (unfold byte_ok; lia).
+Qed.
+
+Example interrupted_reload_still_expires :
+  let w3 := run_fsm 3 100 ex_w0 in     (* first synchronisation done *)
+  let w8 := run_fsm 8 100 ex_w0 in     (* the reload was cut by the transport error *)
+  let w21 := run_fsm 21 100 ex_w0 in   (* CONNECTING again, more than expire_iv after the last success *)
+  let w22 := run_fsm 22 100 ex_w0 in
+  (st (sk w3) = c_RTR_ESTABLISHED /\ last_update (sk w3) = 1000 /\ List.length (own_p (pfx w3)) = 1%nat) /\
+  (st (sk w8) = c_RTR_ERROR_TRANSPORT /\ last_update (sk w8) = 1000 /\ pfx w8 = pfx w3 /\ req_sess (sk w8) = true) /\
+  (st (sk w21) = c_RTR_CONNECTING /\ now w21 = 8261 /\ expired w21 = true /\ pfx w21 = pfx w3) /\
+  (pfx w22 = [] /\ last_update (sk w22) = 0 /\ req_sess (sk w22) = true /\ serial (sk w22) = 0).
+Proof. vm_compute. repeat split; reflexivity. Qed.
